@@ -62,7 +62,7 @@ try:
         caught = []
         try:
             for p in props:
-                e = dict(os.environ, VERIF_REPO=wt, VERIF_EVIDENCE_DIR=os.path.join(HERE, ".work", "evidence-scratch"), VERIF_SOFT_SCALE="0.5")
+                e = dict(os.environ, VERIF_REPO=wt, VERIF_EVIDENCE_DIR=os.path.join(HERE, ".work", "evidence-scratch"), VERIF_SOFT_SCALE=os.environ.get("AUTOMUT_SCALE", "0.7"))
                 rr = subprocess.run([os.path.join(HERE, "check"), p, "quick"], capture_output=True, text=True, env=e)
                 if rr.returncode == 1:
                     caught.append(p)
